@@ -73,6 +73,14 @@ class Num:
         return (1 << (self.bits - 1)) - 1 if self.signed else (1 << self.bits) - 1
 
 
+class NumB(Num):
+    """a Num known (by construction: zero-extension of a narrower unsigned value) to lie below `ubound`"""
+    __slots__ = ('ubound',)
+
+    def __init__(self, e, bits=64, signed=False, ubound=None):
+        Num.__init__(self, e, bits, signed); self.ubound = ubound
+
+
 def wrap_int(v, bits, signed):
     v &= (1 << bits) - 1
     if signed and v >> (bits - 1):
@@ -387,6 +395,15 @@ def num_arith(op, a, b, wrapping=True):
         if a.concrete and b.concrete:
             v = {'BitXor': a.e ^ b.e, 'BitOr': a.e | b.e, 'BitAnd': a.e & b.e}[op]
             return Num(v & ((1 << bits) - 1), bits, signed)
+        if op == 'BitOr':
+            # (t << k) | w with w < 2^k is t * 2^k + w: recognised when one operand is a zero-extended narrower value (NumB) and the low
+            # bits of the other simplify to 0 — keeps word-assembling code in linear arithmetic instead of int2bv / bv2int
+            for lo_, hi_, he in ((a, b, y), (b, a, x)):
+                ub = getattr(hi_, 'ubound', None)
+                if ub is not None and ub & (ub - 1) == 0 and not isinstance(lo_.e, int):
+                    rest = z3.simplify(lo_.e % ub)
+                    if z3.is_int_value(rest) and rest.as_long() == 0:
+                        return Num(lo_.e + (he if not isinstance(he, int) else z3.IntVal(he)), bits, signed)
         xb = z3.Int2BV(x if not isinstance(x, int) else z3.IntVal(x), bits); yb = z3.Int2BV(y if not isinstance(y, int) else z3.IntVal(y), bits)
         rb = xb ^ yb if op == 'BitXor' else (xb | yb if op == 'BitOr' else xb & yb)
         return Num(z3.BV2Int(rb, False), bits, signed)
@@ -462,6 +479,8 @@ def num_cast(v, bits, signed):
         return Num((z3.SignExt if v.signed else z3.ZeroExt)(bits - s, v.e), bits, signed)
     # integer encoding: identity if the source range fits
     if Num(0, bits, signed).lo() <= v.lo() and v.hi() <= Num(0, bits, signed).hi():
+        if not v.signed and not signed and v.bits < bits:
+            return NumB(v.e, bits, signed, getattr(v, 'ubound', None) or (1 << v.bits))     # zero-extension keeps the narrower bound
         return Num(v.e, bits, signed)
     return Num(z3wrap(v.e, bits, signed), bits, signed)
 
